@@ -85,6 +85,14 @@ def run_fragment(body: Sequence[ast.stmt], names: Dict[str, Any], attrs: Optiona
             d_[key] = v
             env[t.value.id] = d_
             return
+        if isinstance(t.value, ast.Attribute) and isinstance(attrs.get(_chain(t.value)), dict):
+            key = fold(t.slice)
+            if isinstance(key, list):
+                raise Unfoldable("dictionary key")
+            d_ = dict(attrs[_chain(t.value)])
+            d_[key] = v
+            attrs[_chain(t.value)] = d_
+            return
         in_attrs = isinstance(t.value, ast.Attribute) and isinstance(attrs.get(_chain(t.value)), list)
         if not in_attrs and not (isinstance(t.value, ast.Name) and isinstance(env.get(t.value.id), list)):
             raise Unfoldable("subscript store into something that is not a list value")
@@ -285,6 +293,21 @@ def run_fragment(body: Sequence[ast.stmt], names: Dict[str, Any], attrs: Optiona
                         env[c.func.value.id] = fold(c.args[0])
                     else:
                         raise Unfoldable("in-place fill of a non-scalar")
+                elif isinstance(c, ast.Call) and isinstance(c.func, ast.Attribute) and c.func.attr == "setdefault" and isinstance(c.func.value, ast.Name) and isinstance(env.get(c.func.value.id), dict) and len(c.args) == 2 and not c.keywords:
+                    key_ = fold(c.args[0])
+                    if isinstance(key_, list):
+                        raise Unfoldable("dictionary key")
+                    d_ = dict(env[c.func.value.id])
+                    if key_ not in d_:
+                        d_[key_] = fold(c.args[1])
+                    env[c.func.value.id] = d_
+                elif isinstance(c, ast.Call) and isinstance(c.func, ast.Attribute) and c.func.attr == "update" and isinstance(c.func.value, ast.Name) and isinstance(env.get(c.func.value.id), dict) and len(c.args) == 1 and not c.keywords:
+                    upd_ = fold(c.args[0])
+                    if not isinstance(upd_, dict):
+                        raise Unfoldable("dictionary update with a non-dictionary")
+                    d_ = dict(env[c.func.value.id])
+                    d_.update(upd_)
+                    env[c.func.value.id] = d_
                 elif isinstance(c, ast.Call) and isinstance(c.func, ast.Attribute) and c.func.attr in ("add", "discard", "update") and isinstance(c.func.value, ast.Name) and isinstance(env.get(c.func.value.id), set) and len(c.args) == 1:
                     cur_ = set(env[c.func.value.id])
                     a_ = fold(c.args[0])
